@@ -496,6 +496,186 @@ def _vt(name):
     return ValueTypes[name]
 
 
+# ----------------------------------------------------------------------------------------- keyvalue / IO lines
+
+def _vt_index(t):
+    from srctools.fgd import ValueTypes
+    return list(ValueTypes).index(t)
+
+
+def kv_json(kv):
+    """KVDef -> the K record of the driver."""
+    tn = kv.type.name
+    vals = None
+    if tn == 'CHOICES':
+        vals = [0, [[codes(v[0]), codes(v[1]), [codes(t) for t in sorted(v[2])]] for v in (kv.val_list or [])]]
+    elif tn == 'SPAWNFLAGS':
+        vals = [1, [[v[0], codes(v[1]), bool(v[2]), [codes(t) for t in sorted(v[3])]] for v in (kv.val_list or [])]]
+    return [codes(kv.name), _vt_index(kv.type), codes(kv.disp_name), codes(kv.default), codes(kv.desc), vals,
+            bool(kv.readonly), bool(kv.reportable)]
+
+
+def io_json(io_):
+    return [codes(io_.name), _vt_index(io_.type), codes(io_.desc)]
+
+
+def case_tables(text):
+    fold, up = [], []
+    for c in sorted(set(text) | set(text.casefold()) | set(text.upper())):
+        if c.casefold() != c:
+            fold.append([ord(c), codes(c.casefold())])
+        if c.upper() != c:
+            up.append([ord(c), codes(c.upper())])
+    return fold, up
+
+
+def impl_body_items(text):
+    """Parse `text` (keyvalue / input / output lines closed by `]`) as the body of an entity with the implementation."""
+    full = '@PointClass = e\n\t[\n' + text
+    try:
+        fgd = G.parse_text(full)
+    except Exception as e:
+        return {'err': type(e).__name__}
+    ent = fgd.entities.get('e')
+    if ent is None or len(fgd.entities) != 1:
+        return {'err': 'no-entity'}
+    items = []
+    for name in ent.keyvalues:
+        for tags, kv in ent.keyvalues[name].items():
+            items.append(['kv', sorted(codes(t) for t in tags), kv_json(kv)])
+    for key, coll in (('in', ent.inputs), ('out', ent.outputs)):
+        for name in coll:
+            for tags, io_ in coll[name].items():
+                items.append([key, sorted(codes(t) for t in tags), io_json(io_)])
+    return {'items': items, 'res': ent.resources != ()}
+
+
+def _model_items(m):
+    """Model reply -> same shape (keyvalues first, then inputs, outputs; later duplicates override)."""
+    if 'perr' in m or m['run']['err'] is not None:
+        return {'err': 'model'}
+    seen = {}
+    for it in m['items']:
+        kind, tags, rec = it
+        if kind == 'kv' and rec[5] is not None:
+            for v in rec[5][1]:
+                v[-1] = sorted(v[-1])
+        key = (kind, uncodes(rec[0]).casefold(), tuple(sorted(map(tuple, tags))))
+        if key in seen:
+            seen[key][2] = rec
+        else:
+            seen[key] = [kind, sorted(tags), rec]
+    order = {'kv': 0, 'in': 1, 'out': 2}
+    # the implementation groups variants of one name together (dict of dicts)
+    first = {}
+    for i, (k, v) in enumerate(seen.items()):
+        first.setdefault((k[0], k[1]), i)
+    items = sorted(seen.items(), key=lambda kv_: (order[kv_[0][0]], first[(kv_[0][0], kv_[0][1])]))
+    return {'items': [v for _, v in items]}
+
+
+MUT_CHARS = ':+"[]=() \n,'
+
+
+def corr_kv(ctx, drv):
+    from srctools.fgd import IODef, ValueTypes
+    rng = ctx.rng
+    reqs, meta = [], []
+    bodies = []
+    for i in range(ctx.budget(250, 3000)):
+        cs = rng.random() < 0.7
+        ls = rng.random() < 0.5
+        G.PLAIN_MODE[0] = not cs
+        opts = {'tags': rng.random() < 0.5, 'long_p': rng.choice([0.0, 0.1]), 'empty_choice_names': True}
+        lines = []
+        names = set()
+        for _ in range(rng.randrange(1, 5)):
+            nm = G.ident(rng)
+            if nm.casefold() in names or nm.casefold() in ('input', 'output'):
+                continue
+            names.add(nm.casefold())
+            o2 = dict(opts)
+            if rng.random() < 0.35:
+                o2['force_type'] = rng.choice([ValueTypes.CHOICES, ValueTypes.SPAWNFLAGS, ValueTypes.BOOL])
+            kv = G.gen_kv(rng, nm, o2)
+            tags = G.gen_tags(rng, 0.4)
+            f = io.StringIO()
+            kv.export(f, tags, ls, cs)
+            text = f.getvalue()
+            reqs.append({'op': 'kvexport', 'ext': cs, 'label': ls, 'tags': [codes(t) for t in sorted(tags)], 'kv': kv_json(kv)})
+            meta.append(('kvexport', text, kv.type.name))
+            lines.append(('kv', text))
+            ctx.case({'kvline': text[:60], 'cs': cs, 'ls': ls}, nontrivial=True, sample_every=577)
+            ctx.count('kvline:' + ('list' if kv.type.has_list else 'plain'))
+        ionames = set()
+        for kind in ('input', 'output'):
+            for _ in range(rng.randrange(0, 3)):
+                nm = G.ident(rng)
+                if (kind, nm.casefold()) in ionames:
+                    continue
+                ionames.add((kind, nm.casefold()))
+                d = '' if rng.random() < 0.4 else (G.long_text(rng) if rng.random() < 0.1 else G.free_text(rng, rng.randrange(1, 40)))
+                iod = IODef(nm, rng.choice(list(ValueTypes)), d)
+                tags = G.gen_tags(rng, 0.3)
+                f = io.StringIO()
+                iod.export(f, kind, tags, cs)
+                text = f.getvalue()
+                reqs.append({'op': 'ioexport', 'ext': cs, 'label': ls, 'kw': codes(kind), 'tags': [codes(t) for t in sorted(tags)], 'io': io_json(iod)})
+                meta.append(('ioexport', text, kind))
+                lines.append((kind, text))
+                ctx.count('ioline')
+        body = ''.join(t for k, t in lines if k == 'kv')
+        ins = [t for k, t in lines if k == 'input']
+        outs = [t for k, t in lines if k == 'output']
+        if ins:
+            body += '\n\t// Inputs\n' + ''.join(ins)
+        if outs:
+            body += '\n\t// Outputs\n' + ''.join(outs)
+        body += '\t]\n'
+        bodies.append(body)
+        # a damaged copy: the parsers must still agree (same record, or both reject)
+        if rng.random() < 0.7 and len(body) < 4000:
+            b = list(body)
+            for _ in range(rng.randrange(1, 3)):
+                k = rng.randrange(len(b))
+                r = rng.random()
+                if r < 0.35:
+                    del b[k]
+                elif r < 0.7:
+                    b.insert(k, rng.choice(MUT_CHARS))
+                elif r < 0.85 and k + 1 < len(b):
+                    b[k], b[k + 1] = b[k + 1], b[k]
+                else:
+                    b.insert(k, b[k])
+                if not b:
+                    b = [']']
+            bodies.append(''.join(b))
+    for body in bodies:
+        fold, up = case_tables(body)
+        reqs.append({'op': 'bodyparse', 's': codes(body), 'fold': fold, 'up': up})
+        meta.append(('bodyparse', body, impl_body_items(body)))
+    for (kind, text, extra), m in zip(meta, drv.batch(reqs)):
+        ctx.traces_vs_impl += 1
+        if kind in ('kvexport', 'ioexport'):
+            if m.get('text') != codes(text):
+                mt = uncodes(m.get('text', []))
+                k = next((i for i, (a, b) in enumerate(zip(text, mt)) if a != b), min(len(text), len(mt)))
+                ctx.disagree({'kind': kind, 'type': extra}, text[max(0, k - 30):k + 30], mt[max(0, k - 30):k + 30], f'{kind} text at offset {k}')
+        else:
+            impl = extra
+            ctx.count('bodyparse:' + ('err' if 'err' in impl else 'ok'))
+            if impl.get('res'):
+                continue
+            if 'perr' not in m and m['run']['err'] is None and m.get('rest', 0) > 2:
+                ctx.count('bodyparse:closed-early')      # a damaged copy whose `]` comes early: what follows is not body syntax
+                continue
+            mi = _model_items(m)
+            if ('err' in impl) != ('err' in mi):
+                ctx.disagree({'kind': 'bodyparse', 'text': text[:300]}, impl if 'err' in impl else 'ok', m.get('perr', m['run']['err']) if 'err' in mi else 'ok', 'body parse: accept/reject')
+            elif 'err' not in impl and impl['items'] != mi['items']:
+                ctx.disagree({'kind': 'bodyparse', 'text': text[:300]}, None, None, 'body parse: ' + str(G.first_diff(impl['items'], mi['items'])))
+
+
 # ----------------------------------------------------------------------------------------- lazy database
 
 def build_engine_db(layout, cbase_payload=7):
@@ -693,6 +873,7 @@ def correspond(ctx, drivers):
     guard(ctx, 'colon lists', corr_colon, ctx, drv)
     guard(ctx, 'string dictionary', corr_dict, ctx, drv)
     guard(ctx, 'records', corr_records, ctx, drv)
+    guard(ctx, 'keyvalue / IO lines', corr_kv, ctx, drv)
     guard(ctx, 'lazy database', _corr_lazy_all, ctx, drv)
     ctx.exhaustive = False
 
